@@ -495,6 +495,96 @@ Proof.
   do 5 (apply andb_true_iff in OK; let H' := fresh "P" in destruct OK as [OK H']). exact OK.
 Qed.
 
+(* ---- regexes that end in \Z (or fullmatch): the validators are the grammar, with no slack ---- *)
+Definition ends_Z (F : name_facts) : bool :=
+  match re_end (nf_type_re F), re_end (nf_field_re F) with EndZ, EndZ => true | _, _ => false end.
+
+Lemma validators_exact_strict F : facts_ok F = true -> ends_Z F = true -> forall n d,
+  validators_pass F n d = true ->
+  type_name_grammar n = true
+  /\ Forall (fun f => ident_no_underscore f = true /\ mem f (reserved_names F) = false) (map snd d)
+  /\ Forall (fun t => whitelisted_opt_list (nf_whitelist F) t = true) (map fst d).
+Proof.
+  intros OK Z n d H. unfold ends_Z in Z.
+  destruct (re_end (nf_type_re F)) eqn:Et; try discriminate Z.
+  destruct (re_end (nf_field_re F)) eqn:Ef; try discriminate Z.
+  pose proof (type_regex_exact F OK) as Bt. pose proof (field_regex_exact F OK) as Bf.
+  pose proof OK as OK'. unfold facts_ok in OK'.
+  do 5 (apply andb_true_iff in OK'; let H' := fresh "P" in destruct OK' as [OK' H']).
+  unfold steps_ok in P1. do 3 (apply andb_true_iff in P1; let H' := fresh "Q" in destruct P1 as [P1 H']).
+  unfold validators_pass in H. split; [|split].
+  - pose proof (reaches_typename F _ _ _ H Q0) as Hm. unfold re_match in Hm. rewrite Et in Hm. simpl in Hm.
+    rewrite <- Bt. exact Hm.
+  - pose proof (reaches_fieldnames F _ _ _ H P1) as Hf. rewrite P0 in Hf.
+    apply Forall_forall. intros f Hin. rewrite forallb_forall in Hf. specialize (Hf f Hin).
+    rewrite (field_valid_ref F OK) in Hf. destruct (mem f (reserved_names F)); [discriminate Hf|].
+    split; [|reflexivity]. apply andb_true_iff in Hf. destruct Hf as [Hu Hm]. apply negb_true_iff in Hu.
+    unfold re_match in Hm. rewrite Ef in Hm. simpl in Hm. rewrite <- Bf; auto.
+  - pose proof (reaches_types F _ _ _ H Q1) as Ht.
+    apply Forall_forall. intros t Hin. rewrite forallb_forall in Ht. apply (Ht t Hin).
+Qed.
+
+Lemma validators_iff F : facts_ok F = true -> ends_Z F = true -> forall n d,
+  validators_pass F n d = true <->
+  (type_name_grammar n = true
+   /\ Forall (fun f => ident_no_underscore f = true) (map snd d)
+   /\ Forall (fun t => whitelisted_opt_list (nf_whitelist F) t = true) (map fst d)).
+Proof.
+  intros OK Z n d. split.
+  - intros H. destruct (validators_exact_strict F OK Z n d H) as (A & B & C). split; [exact A|split; [|exact C]].
+    eapply Forall_impl; [|exact B]. simpl. tauto.
+  - intros (A & B & C). apply validators_complete; auto.
+Qed.
+
+(* ---- names that arrive as bytes ---- *)
+Lemma word_ascii c : is_word c = true -> is_ascii c = true.
+Proof. unfold is_word, is_alpha, is_digit, is_underscore, UNDERSCORE, is_ascii. intros H. lia. Qed.
+
+Lemma ident_ascii s : ident_no_underscore s = true -> forallb is_ascii s = true.
+Proof.
+  destruct s as [|c t]; simpl; intros H; [reflexivity|].
+  apply andb_true_iff in H. destruct H as [Hc Ht]. rewrite (word_ascii c (alpha_word c Hc)). simpl.
+  apply forallb_forall. intros x Hx. rewrite forallb_forall in Ht. apply word_ascii. auto.
+Qed.
+
+Lemma segments_ascii s : forallb (forallb is_ascii) (split_on SLASH s) = true -> forallb is_ascii s = true.
+Proof.
+  induction s as [|c t IH]; simpl; [reflexivity|].
+  destruct (c =? SLASH) eqn:E; simpl.
+  - intros H. apply N.eqb_eq in E. subst c. simpl. apply IH. exact H.
+  - destruct (split_on SLASH t) as [|p ps] eqn:Es; [destruct (split_on_nonnil _ _ Es)|].
+    simpl. intros H. apply andb_true_iff in H. destruct H as [H Hps].
+    apply andb_true_iff in H. destruct H as [Hc Hp]. rewrite Hc. simpl. apply IH. simpl. rewrite Hp, Hps. reflexivity.
+Qed.
+
+Lemma type_name_ascii s : type_name_grammar s = true -> forallb is_ascii s = true.
+Proof.
+  intros H. apply segments_ascii. unfold type_name_grammar in H. rewrite forallb_forall in H.
+  apply forallb_forall. intros p Hp. apply ident_ascii. auto.
+Qed.
+
+Lemma whitelisted_cases wl t : whitelisted_opt_list wl t = true -> In (strip_list t) wl.
+Proof. unfold whitelisted_opt_list. apply mem_In. Qed.
+
+(* A decoder that keeps ASCII bytes and turns every other input into text with a non-ASCII code point (what
+   bytes.decode("utf-8", "surrogateescape") does: an invalid byte b becomes U+DC00+b, a valid sequence a code point
+   >= 128) cannot make a name acceptable that was not already the ASCII spelling of an acceptable name. *)
+Section Decode.
+Variable dec : list N -> str.
+Hypothesis dec_ascii : forall b, forallb is_ascii b = true -> dec b = b.
+Hypothesis dec_nonascii : forall b, forallb is_ascii b = false -> forallb is_ascii (dec b) = false.
+
+Lemma decoded_name_valid (P : str -> bool) :
+  (forall s, P s = true -> forallb is_ascii s = true) ->
+  forall b, P (dec b) = true -> dec b = b /\ P b = true.
+Proof.
+  intros PA b H. pose proof (PA _ H) as A.
+  destruct (forallb is_ascii b) eqn:E.
+  - rewrite (dec_ascii b E) in *. auto.
+  - rewrite (dec_nonascii b E) in A. discriminate A.
+Qed.
+End Decode.
+
 (* ---------------------------------------------------------------- field types *)
 Lemma strip_brackets_spec s b : strip_brackets s = Some b -> s = b ++ [91; 93].
 Proof.
